@@ -1,11 +1,12 @@
 package c17
 
-// Encryption at rest as a configuration dimension: in a generated fraction of the
-// cases the fixture's storage gets a real encryptionkm.KeyManager (file master key,
-// data key created through a campaigned election.Leadership on the per-process
-// embedded etcd of vkit/etcdfix), method aes128/192/256-ctr. One key manager per
-// method and process; each keeps the key dictionary it loaded when it created its
-// data key (no watcher), so its current key has its own method.
+// Encryption at rest as a dimension of the region cases, with key-manager
+// GENERATIONS: every case starts from an empty key dictionary in the per-process
+// etcd (vkit/etcdfix); a key manager is a real encryptionkm.KeyManager (file master
+// key) that gets its data key through SetLeadership with a process-wide campaigned
+// election.Leadership. The leadership's client is hooked, so the leader-guarded txn
+// that saves the key dictionary can be failed (fail-before / lost-ack), and the
+// leader key can be overwritten out of band (the txn then does not succeed).
 
 import (
 	"fmt"
@@ -20,78 +21,127 @@ import (
 	"pdverif/vkit/etcdfix"
 )
 
-var encMethods = []string{"", "aes128-ctr", "aes192-ctr", "aes256-ctr"}
+var encMethods = []string{"plaintext", "aes128-ctr", "aes192-ctr", "aes256-ctr"}
+
+type encEnv struct {
+	fix       *etcdfix.Fixture
+	hooks     *etcdfix.Hooks
+	ls        *election.Leadership
+	leaderKey string
+	keyFile   string
+	dir       string
+}
 
 var (
-	kmOnce sync.Once
-	kms    [4]*encryptionkm.KeyManager
-	kmErr  error
-	kmDir  string
+	envOnce sync.Once
+	env     *encEnv
+	envErr  error
 )
 
 func encCleanup() {
 	etcdfix.Close()
-	if kmDir != "" {
-		os.RemoveAll(kmDir)
+	if env != nil && env.dir != "" {
+		os.RemoveAll(env.dir)
 	}
 }
 
-// keyManager returns the process-wide key manager of a method (1..3). An error means
-// the etcd fixture could not be set up: inconclusive, never a violation.
-func keyManager(enc int) (*encryptionkm.KeyManager, error) {
-	kmOnce.Do(func() {
+// getEnv sets up (once per process) etcd, the master key file and the leadership.
+// An error means the fixture could not be set up: inconclusive, never a violation.
+func getEnv() (*encEnv, error) {
+	envOnce.Do(func() {
 		f, err := etcdfix.Get()
 		if err != nil {
-			kmErr = err
+			envErr = err
 			return
 		}
-		client, err := f.NewClient(&etcdfix.Hooks{})
+		e := &encEnv{fix: f, hooks: &etcdfix.Hooks{}}
+		client, err := f.NewClient(e.hooks)
 		if err != nil {
-			kmErr = err
+			envErr = err
 			return
 		}
 		dir, err := os.MkdirTemp("", "c17-master-key")
 		if err != nil {
-			kmErr = err
+			envErr = err
 			return
 		}
-		kmDir = dir
-		kf := filepath.Join(dir, "master.key")
-		if err := os.WriteFile(kf, []byte(strings.Repeat("7d", 32)+"\n"), 0o600); err != nil {
-			kmErr = err
+		e.dir = dir
+		e.keyFile = filepath.Join(dir, "master.key")
+		if err := os.WriteFile(e.keyFile, []byte(strings.Repeat("7d", 32)+"\n"), 0o600); err != nil {
+			envErr = err
 			return
 		}
-		ls := election.NewLeadership(client, f.Root()+"/leader", "c17")
-		if err := ls.Campaign(3600, "c17"); err != nil {
-			kmErr = fmt.Errorf("campaign: %v", err)
+		e.leaderKey = "/c17/leader"
+		e.ls = election.NewLeadership(client, e.leaderKey, "c17")
+		if err := e.ls.Campaign(7200, "c17"); err != nil {
+			envErr = fmt.Errorf("campaign: %v", err)
 			return
 		}
-		for i := 1; i <= 3; i++ {
-			cfg := &encryption.Config{DataEncryptionMethod: encMethods[i],
-				MasterKey: encryption.MasterKeyConfig{Type: "file", MasterKeyFileConfig: encryption.MasterKeyFileConfig{FilePath: kf}}}
-			if err := cfg.Adjust(); err != nil {
-				kmErr = err
-				return
-			}
-			km, err := encryptionkm.NewKeyManager(client, cfg)
-			if err != nil {
-				kmErr = err
-				return
-			}
-			if err := km.SetLeadership(ls); err != nil {
-				kmErr = err
-				return
-			}
-			id, key, err := km.GetCurrentKey()
-			if err != nil || key == nil {
-				kmErr = fmt.Errorf("key manager %s has no current key (id %d, %v)", encMethods[i], id, err)
-				return
-			}
-			kms[i] = km
-		}
+		env = e
 	})
-	if kmErr != nil {
-		return nil, kmErr
+	return env, envErr
+}
+
+// resetKeys removes the key dictionary: a case starts like a fresh cluster.
+func (e *encEnv) resetKeys() error {
+	return e.fix.DeleteRaw(encryptionkm.EncryptionKeysPath, false)
+}
+
+// newKM is what a (re)started PD does: a key manager with the configured method,
+// loaded from etcd only.
+func (e *encEnv) newKM(method int) (*encryptionkm.KeyManager, error) {
+	cfg := &encryption.Config{DataEncryptionMethod: encMethods[method],
+		MasterKey: encryption.MasterKeyConfig{Type: "file", MasterKeyFileConfig: encryption.MasterKeyFileConfig{FilePath: e.keyFile}}}
+	if err := cfg.Adjust(); err != nil {
+		return nil, err
 	}
-	return kms[enc], nil
+	return encryptionkm.NewKeyManager(e.fix.Raw, cfg)
+}
+
+// setLeadership calls SetLeadership with a fault on the save of the key dictionary:
+// "" none, "failbefore" the txn is not sent, "lostack" it is applied but an error is
+// returned, "notleader" the leader key holds another value (the txn does not succeed).
+func (e *encEnv) setLeadership(km *encryptionkm.KeyManager, fault string) error {
+	switch fault {
+	case "failbefore", "lostack":
+		act := etcdfix.FailBefore
+		if fault == "lostack" {
+			act = etcdfix.LostAck
+		}
+		e.hooks.Set(func(ev *etcdfix.Event) etcdfix.Action {
+			if ev.Method == "Txn" && ev.Write {
+				for _, k := range ev.Keys {
+					if k == encryptionkm.EncryptionKeysPath {
+						return act
+					}
+				}
+			}
+			return etcdfix.Proceed
+		}, nil)
+		defer e.hooks.Set(nil, nil)
+	case "notleader":
+		if err := e.fix.PutRaw(e.leaderKey, "somebody-else"); err != nil {
+			return fmt.Errorf("harness: %v", err)
+		}
+		defer e.fix.PutRaw(e.leaderKey, "c17")
+	}
+	return km.SetLeadership(e.ls)
+}
+
+// persisted reports what a brand-new key manager finds in etcd: whether a dictionary
+// exists and the method of its current key (0 = none / encryption off).
+func (e *encEnv) persisted() (exists bool, method int, err error) {
+	_, _, _, exists = e.fix.GetRaw(encryptionkm.EncryptionKeysPath)
+	km, err := e.newKM(0)
+	if err != nil {
+		return exists, 0, err
+	}
+	_, key, err := km.GetCurrentKey()
+	if err != nil {
+		return exists, 0, err
+	}
+	if key != nil {
+		method = int(key.Method) - 1 // PLAINTEXT=1, AES128_CTR=2, ...
+	}
+	return exists, method, nil
 }
